@@ -94,3 +94,81 @@ pub fn inflator_interleavings(run: &Run, property: &str) {
         }),
     );
 }
+
+/// Driver of the second loom lab (`/verif/stfloom`): melstf's own source - the library target is the repository's `src/lib.rs` -
+/// compiled against loom-backed stand-ins for rayon, parking_lot, once_cell and dashmap.  Every rayon terminal operation in
+/// `apply_tx_batch` is a parallel site; for each scenario (a batch of two or three transactions), each site in turn runs its
+/// pieces on loom threads, under every way of cutting the batch into consecutive pieces, and loom explores every interleaving of
+/// what the pieces share.  Oracle: verdict, sealed header and recorded DOSC speed equal those of the sequential run.
+pub fn stf_interleavings(run: &Run, property: &str, scenarios: &[&str]) {
+    let root = verif_dir();
+    let bin = format!("{}/target/stfloom/release/stfloom", root);
+    let marker = format!("{}/target/stfloom.unavailable", root);
+    if std::path::Path::new(&marker).exists() || !std::path::Path::new(&bin).exists() {
+        let why = std::fs::read_to_string(&marker).unwrap_or_default();
+        println!("NOTE check={} stfloom unavailable for this tree (melstf's source does not compile against the loom-backed stand-ins); apply_tx_batch is not explored under loom in this run", run.id);
+        run.set("loom_apply_tx_batch", json!({"available": false, "reason": why.lines().take(12).collect::<Vec<_>>() }));
+        run.cap_hit("stfloom unavailable: interleavings of apply_tx_batch not explored");
+        return;
+    }
+    let bound = if run.thorough() { "none" } else { "none" };
+    let mut rows = Vec::new();
+    let (mut total, mut models) = (0u64, 0u64);
+    for name in scenarios {
+        let out = match Command::new(&bin).args(["run", name, bound]).output() {
+            Ok(o) => o,
+            Err(e) => run.machinery_failure(&format!("stfloom: cannot run {}: {}", name, e)),
+        };
+        let stdout = String::from_utf8_lossy(&out.stdout).to_string();
+        let stderr = String::from_utf8_lossy(&out.stderr).to_string();
+        if let Some(l) = stdout.lines().find(|l| l.starts_with("STFLOOM-MISMATCH")) {
+            let detail = stdout.lines().find(|l| l.starts_with("STFLOOM-DETAIL")).unwrap_or("");
+            let field = |k: &str| l.split_whitespace().find_map(|w| w.strip_prefix(k)).unwrap_or("?").to_string();
+            let (got, want) = (field("got="), field("want="));
+            let kind = if got != want { format!("sequential-{}-some-interleaving-{}", want, got) } else { "same-verdict-other-state".to_string() };
+            run.outcome("loom:apply_tx_batch:result-differs-under-some-interleaving");
+            run.violation(
+                property,
+                format!("apply_tx_batch/interleaving/{}", kind),
+                format!("loom found an interleaving (or a way of cutting the batch) of apply_tx_batch on the batch '{}' whose result differs from the sequential one: {} {}", name, l, detail),
+                json!({"stfloom": ["run", name, bound], "mismatch": l, "detail": detail}),
+            );
+            rows.push(json!({"scenario": name, "result": l}));
+            continue;
+        }
+        if out.status.success() {
+            let ok = stdout.lines().find(|l| l.starts_with("STFLOOM scenario=")).unwrap_or("");
+            let num = |k: &str| ok.split_whitespace().find_map(|w| w.strip_prefix(k)).and_then(|x| x.parse::<u64>().ok()).unwrap_or(0);
+            let (n, m) = (num("executions="), num("models="));
+            if n == 0 {
+                run.machinery_failure(&format!("stfloom: scenario {} reported no executions: {} {}", name, stdout, stderr));
+            }
+            total += n;
+            models += m;
+            run.transitions_add(n);
+            run.validated_add(n);
+            run.outcome_n("loom:apply_tx_batch:execution-equals-the-sequential-result", n);
+            rows.push(json!({"scenario": name, "parallel_sites": num("sites="), "cut_patterns": num("cut_patterns="), "models": m, "models_with_a_parallel_site": num("models_with_a_parallel_site="), "executions": n, "sequential_verdict": ok.split_whitespace().find_map(|w| w.strip_prefix("reference=")).unwrap_or("")}));
+            continue;
+        }
+        let all = format!("{}\n{}", stdout, stderr);
+        if all.contains("deadlock") {
+            run.outcome("loom:apply_tx_batch:deadlock");
+            run.violation(property, "apply_tx_batch/interleaving/deadlock".into(), format!("loom found an interleaving of apply_tx_batch on the batch '{}' that deadlocks", name), json!({"stfloom": ["run", name, bound]}));
+            continue;
+        }
+        let tail: Vec<&str> = all.lines().rev().take(8).collect();
+        run.machinery_failure(&format!("stfloom: scenario {} ended without a verdict: {:?}", name, tail));
+    }
+    run.set(
+        "loom_apply_tx_batch",
+        json!({
+            "available": true,
+            "kind": "exhaustive: melstf's own source compiled against loom-backed rayon / parking_lot / once_cell / dashmap; per scenario, every parallel site of apply_tx_batch in turn runs its pieces on loom threads under every way of cutting the batch into consecutive pieces; loom (DPOR, unbounded preemptions) explores every interleaving of what the pieces share through locks, lazies, once-cells and concurrent maps",
+            "oracle": "verdict, header after seal(None) and recorded DOSC speed equal those of the sequential run",
+            "models": models,
+            "executions": total,
+            "scenarios": rows,
+        }),
+    );
+}
